@@ -182,9 +182,13 @@ def run(ctx):
   recs += hist_records(rng_mod, names, rnd, ctx.quick)
   # java: TLC recomputes the BigInteger byte stream on limbs
   for i in range(150 if ctx.quick else 1200):
-    seed = rnd.choice([1, 42, rnd.randrange(1, 2 ** 48), rnd.randrange(1, 2 ** 48), 2 ** 48 - 1, 2 ** 47])
+    # java.util.Random takes any 64-bit long and keeps (seed ^ 0x5DEECE66D) & (2^48 - 1): seeds beyond 48 bits, negative seeds and the
+    # seed that scrambles to the all-ones state are part of the vocabulary (the model sees the low 48 bits)
+    seed = rnd.choice([1, 42, rnd.randrange(1, 2 ** 48), rnd.randrange(1, 2 ** 48), 2 ** 48 - 1, 2 ** 47, 2 ** 48, 2 ** 48 + rnd.randrange(1, 2 ** 40),
+                       rnd.randrange(2 ** 48, 2 ** 63), 0xFFFFFFFFFFFF ^ 0x5DEECE66D, -1, -rnd.randrange(1, 2 ** 63), 2 ** 63 - 1])
     n = rnd.choice([1, 7, 8, 9, 31, 32, 33, 63, 64, 65, rnd.randrange(1, 200)])
-    rec = R('java-%d-%d-%d' % (i, seed % 10007, n), 'java', {'seed': limbs(seed), 'n': n, 'name': 'java', 'family': 'java', 'n_mod_8': n % 8})
+    rec = R('java-%d-%d-%d' % (i, seed % 10007, n), 'java', {'seed': limbs(seed), 'n': n, 'name': 'java', 'family': 'java', 'n_mod_8': n % 8,
+                                                             'seed_bits': seed.bit_length(), 'negative': seed < 0})
     try:
       v = rng_mod.GetRng('java').RandomBits(n, seed=seed)
       if v.bit_length() > 8 * ((n + 7) // 8):
